@@ -308,3 +308,41 @@ Section LayoutSpec.
       exists nm'. split; [reflexivity|exact Hu].
   Qed.
 End LayoutSpec.
+
+(** * deciders of the regions *)
+Lemma in_boxb_spec p0 p1 q : CC.in_boxb p0 p1 q = true <-> CS.in_box p0 p1 q.
+Proof. unfold CC.in_boxb, CS.in_box. rewrite !andb_true_iff, !Z.leb_le. tauto. Qed.
+Lemma near_segb_spec w a b q : CC.near_segb w a b q = true <-> CS.near_seg w a b q.
+Proof.
+  unfold CC.near_segb, CS.near_seg. rewrite !orb_true_iff, !andb_true_iff, !Z.leb_le, !Z.eqb_eq, !negb_true_iff, !Z.eqb_neq, CP.on_segb_spec. tauto.
+Qed.
+Lemma in_region_shape_nzb_spec s q : in_region_shape_nzb s q = true <-> in_region_shape_nz s q.
+Proof.
+  destruct s as [p0 p1|ps|ps w]; cbn [in_region_shape_nzb in_region_shape_nz in_region_shapeb in_region_shape].
+  - apply in_boxb_spec.
+  - apply CP.in_region_nzb_spec.
+  - rewrite existsb_exists. split; intros [e [H1 H2]]; exists e; (split; [exact H1|]); apply near_segb_spec; exact H2.
+Qed.
+
+Theorem labels_unambiguous_nz_atb_sound lab L :
+  labels_unambiguous_nz_atb lab L = true -> labels_unambiguous_nz_at lab L.
+Proof.
+  unfold labels_unambiguous_nz_atb, labels_unambiguous_nz_at. intros H. apply Forall_forall. intros ev Hev.
+  rewrite forallb_forall in H. specialize (H ev Hev). unfold unambiguous_view_nzb in H. rewrite forallb_forall in H.
+  intros v n p v' Hv Hn Hp Hv' Hl Hr. specialize (H v Hv). rewrite Hn, Hp in H. rewrite forallb_forall in H. specialize (H v' Hv').
+  apply orb_prop in H as [H|H].
+  - exfalso. apply negb_true_iff in H. apply andb_false_iff in H as [H|H].
+    + apply Z.eqb_neq in H. contradiction.
+    + apply in_region_shape_nzb_spec in Hr. rewrite Hr in H. discriminate.
+  - apply ostring_eqb_eq in H. exact H.
+Qed.
+
+(** the code as found puts the label of the triangle (0,0),(1,3),(1,0) at (0,1), outside the triangle *)
+Lemma label_inside_orig_refuted :
+  exists s p, shape_okb s = true /\ label_location xcfg_orig s = Ok p /\ ~ in_region_shape_nz s p /\
+              label_location xcfg_fixed s = Ok (mkpt 1 0).
+Proof.
+  exists (Polygon [mkpt 0 0; mkpt 1 3; mkpt 1 0]), (mkpt 0 1).
+  split; [vm_compute; reflexivity|]. split; [vm_compute; reflexivity|]. split; [|vm_compute; reflexivity].
+  intros H. apply in_region_shape_nzb_spec in H. vm_compute in H. discriminate.
+Qed.
